@@ -1,5 +1,6 @@
 import KinModel.Drv.Util
 import KinModel.LoaderJson
+import KinModel.LoaderHistory
 open Lean
 namespace KinModel.Drv.C02
 open KinModel.Drv KinModel.Loader KinModel.LoaderJson
@@ -157,7 +158,7 @@ structure LoadReq where
     are made one after the other on ONE Loader; a "data" load (at most one per history) takes the root document from a
     `virtual` file, which is not part of the store. Short form for a single load: {entry, root, files} ("data": the
     root document is `files[0].json`). -/
-def handle (j : Json) : Json :=
+def handleFrom (j : Json) (st0 : St) : Json × St :=
   let rawLoads : List (String × String) :=
     match getArr j "loads" with
     | [] => [(getStr j "entry", getStr j "root")]
@@ -246,7 +247,7 @@ def handle (j : Json) : Json :=
                   jobj [("ok", Json.bool specOK), ("malformed", Json.bool nullMember),
                         ("refs", Json.mkObj (specRefs.map (fun (r, v) => (r, v.getD Json.null))))],
                   excl, branches)])
-  let (_, perLoad) := loads.foldl step (({} : St), [])
+  let (stEnd, perLoad) := loads.foldl step (st0, [])
   let excl := dedup (perLoad.flatMap (·.2.2.1)) ++
     (if internalInElem then ["InternalRefInElementFile"] else []) ++
     (if otherDisagree then ["StepDisagree"] else [])
@@ -273,7 +274,7 @@ def handle (j : Json) : Json :=
     excl.map (fun e => "excl." ++ e)
   let lastM := (perLoad.getLast?.map (·.1)).getD Json.null
   let lastS := (perLoad.getLast?.map (·.2.1)).getD Json.null
-  jobj [
+  (jobj [
     ("model", jobj [("outcome", getD lastM "outcome" Json.null), ("refs", getD lastM "refs" Json.null),
                     ("loads", Json.arr (perLoad.map (·.1)).toArray)]),
     ("spec", jobj [("ok", getD lastS "ok" Json.null), ("refs", getD lastS "refs" Json.null),
@@ -281,6 +282,37 @@ def handle (j : Json) : Json :=
     ("excl", jstrs excl),
     ("fuel", Json.num (JsonNumber.fromNat fuel)),
     ("dbg", jstrs (disagree.map (fun n => s!"{n.ref.getD ""} @{n.src} go={goStepKey n} spec={specStepKey n}"))),
-    ("branches", jstrs branches)]
+    ("branches", jstrs branches)], stEnd)
+
+/-- request, long form for a store that CHANGES between the loads: {epochs: [{files, loads}, …]} — the loads of all
+    epochs are made one after the other on ONE Loader, the files are replaced between two epochs. The model is
+    `Loader.loadSeqW`: every epoch builds its own world and fuel and starts from the state the previous epoch left
+    (which `loadEntry` discards: `changing_store_history_is_fresh_loads`); the specification of a load looks at the
+    files of its own epoch alone. -/
+def handle (j : Json) : Json :=
+  match getArr j "epochs" with
+  | [] => (handleFrom j {}).1
+  | eps =>
+    let (_, outs) := eps.foldl (fun (acc : St × List Json) ep =>
+      let (r, s') := handleFrom ep acc.1
+      (s', acc.2 ++ [r])) (({} : St), [])
+    let part (r : Json) (k : String) : Json := getD r k Json.null
+    let mLoads := outs.flatMap (fun r => getArr (part r "model") "loads")
+    let sLoads := outs.flatMap (fun r => getArr (part r "spec") "loads")
+    let strs (r : Json) (k : String) : List String := (getArr r k).filterMap (fun x => match x with | .str t => some t | _ => none)
+    let excl := dedup (outs.flatMap (fun r => strs r "excl"))
+    let outcomes := mLoads.map (fun l => getStr l "outcome")
+    let branches := dedup (outs.flatMap (fun r => strs r "branches")) ++
+      ["store.changed", "store.changed." ++ ".".intercalate outcomes]
+    let lastM := mLoads.getLast?.getD Json.null
+    let lastS := sLoads.getLast?.getD Json.null
+    jobj [
+      ("model", jobj [("outcome", getD lastM "outcome" Json.null), ("refs", getD lastM "refs" Json.null),
+                      ("loads", Json.arr mLoads.toArray)]),
+      ("spec", jobj [("ok", getD lastS "ok" Json.null), ("refs", getD lastS "refs" Json.null),
+                     ("loads", Json.arr sLoads.toArray)]),
+      ("excl", jstrs excl),
+      ("dbg", jstrs (outs.flatMap (fun r => strs r "dbg"))),
+      ("branches", jstrs branches)]
 
 end KinModel.Drv.C02
